@@ -68,9 +68,11 @@ type Stat struct {
 	Objects     int      `json:"objects"`
 	SharedObjs  int      `json:"shared_objects"`
 	SharedSites int      `json:"shared_sites"`
+	SharedLabels int     `json:"shared_labels"`
 	Eligible    int      `json:"eligible_points_base"`
 	WallMS      int64    `json:"wall_ms"`
 	Violating   int      `json:"violating_executions"`
+	HandlerPanics int    `json:"executions_with_handler_panic"`
 }
 
 // Out is the output file of a worker.
@@ -79,6 +81,7 @@ type Out struct {
 	Shard   int      `json:"shard"`
 	Stats   []Stat   `json:"stats"`
 	Found   []Found  `json:"found"`
+	Warned  []Found  `json:"warned"` // handler panics (recovered by the gRPC middleware in production)
 	Samples []Sample `json:"samples"`
 	Race    *RaceOut `json:"race,omitempty"`
 	Replay  *Replayed `json:"replay,omitempty"`
@@ -199,6 +202,7 @@ func exploreScenario(sp Spec, job *Job, deadline time.Time, out *Out) Stat {
 		sched.Fatal("scenario %s: two query-free runs differ:\n%s\n---\n%s", sp.Name, in.Ref.BlockString(), again.BlockString())
 	}
 	sharedSites := map[int32]bool{}
+	sharedLabels := map[int32]bool{}
 	outcomes := map[uint64]struct{}{}
 	foundSig := map[string]*Found{}
 	var samples []Sample
@@ -209,6 +213,11 @@ func exploreScenario(sp Spec, job *Job, deadline time.Time, out *Out) Stat {
 					if o.Threads&(o.Threads-1) != 0 { // touched by >= 2 threads
 						for s := range o.Sites {
 							sharedSites[s] = true
+						}
+						for _, l := range o.TL {
+							if l != 0 {
+								sharedLabels[l] = true
+							}
 						}
 					}
 				}
@@ -236,8 +245,17 @@ func exploreScenario(sp Spec, job *Job, deadline time.Time, out *Out) Stat {
 		if x.Horizon {
 			vs = append(vs, Violation{Kind: "horizon", Signature: "horizon-exceeded", Detail: "the execution did not end within the point horizon"})
 		}
-		if len(vs) > 0 {
+		nv := 0
+		for _, v := range vs {
+			if v.Kind != "handler-panic" {
+				nv++
+			}
+		}
+		if nv > 0 {
 			st.Violating++
+		}
+		if nv < len(vs) {
+			st.HandlerPanics++
 		}
 		for _, v := range vs {
 			if f, ok := foundSig[v.Signature]; ok {
@@ -276,10 +294,11 @@ func exploreScenario(sp Spec, job *Job, deadline time.Time, out *Out) Stat {
 	}
 	_ = countZero
 	st.SharedSites = len(sharedSites)
+	st.SharedLabels = len(sharedLabels)
 	if sp.Bound > 0 && e0.Complete {
 		elig := func(x *sched.Result, i int) bool {
 			p := &x.Points[i]
-			if sharedSites[p.Site] {
+			if p.TLabel != 0 && sharedLabels[p.TLabel] {
 				return true
 			}
 			if p.Obj >= 0 && int(p.Obj) < len(x.Objs) {
@@ -324,7 +343,11 @@ func exploreScenario(sp Spec, job *Job, deadline time.Time, out *Out) Stat {
 	}
 	sort.Strings(sigs)
 	for _, s := range sigs {
-		out.Found = append(out.Found, *foundSig[s])
+		if foundSig[s].Kind == "handler-panic" {
+			out.Warned = append(out.Warned, *foundSig[s])
+		} else {
+			out.Found = append(out.Found, *foundSig[s])
+		}
 	}
 	out.Samples = append(out.Samples, samples...)
 	st.WallMS = time.Since(t0).Milliseconds()
